@@ -440,22 +440,34 @@ theorem answer_follows_first_matching_response_rule (cfg : Cfg) (rs : List SrcRu
   exact ⟨fun h => hact.2.2.1 r h0 ha (hsel.trans h), fun h => hact.2.2.2.1 r h0 ha (hsel.trans h),
     fun k h => hact.2.2.2.2.1 r k h0 ha (hsel.trans h)⟩
 
-/-! ## One question per query (fix C07.fix1) -/
+/-! ## Exactly one question per query (fixes 59279ab, 222c712) -/
 
-/-- **A query with more than one question is refused**: FORMERR, nobody is asked, nothing is cached or
-evicted — so no question can ride along past the request rules behind another one.  Every other message is
-handled by `handle` on its (first and only) question. -/
-theorem multi_question_query_is_refused (cfg : Cfg) (cache : Cache) (dst : Nat) (nq : Nat) (q? : Option Question)
-    (ans : Upstreams) (h : nq > 1) :
+/-- **A query that does not carry exactly one question is refused** (none: fix 222c712; more than one: fix
+59279ab): FORMERR, nobody is asked, nothing is cached or evicted — so no question can ride along past the request
+rules behind another one, and no answer is relayed or cached that could not be checked against a question.  Every
+other message is handled by `handle` on its one question. -/
+theorem query_without_exactly_one_question_is_refused (cfg : Cfg) (cache : Cache) (dst : Nat) (nq : Nat)
+    (q? : Option Question) (ans : Upstreams) (h : nq ≠ 1) :
     let o := handleMsg cfg cache dst false nq q? ans
     o.reply = .refused ∧ o.trace = [] ∧ o.cache = cache := by
   simp [handleMsg, h]
 
 theorem single_question_query_is_handled (cfg : Cfg) (cache : Cache) (dst : Nat) (isResp : Bool) (nq : Nat)
-    (q? : Option Question) (ans : Upstreams) (h : nq ≤ 1) :
+    (q? : Option Question) (ans : Upstreams) (h : nq = 1) :
     handleMsg cfg cache dst isResp nq q? ans = handle cfg cache dst isResp q? ans := by
-  have : ¬ nq > 1 := by omega
-  simp [handleMsg, this]
+  simp [handleMsg, h]
+
+/-- the same with `optimistic_cache` on -/
+theorem query_without_exactly_one_question_is_refused_optimistic (cfg : Cfg) (cache : Cache) (stale : List CacheKey)
+    (dst : Nat) (nq : Nat) (q? : Option Question) (ans : Upstreams) (h : nq ≠ 1) :
+    let o := handleMsgOpt cfg cache stale dst false nq q? ans
+    o.reply = .refused ∧ o.trace = [] ∧ o.cache = cache ∧ o.stale = stale := by
+  simp [handleMsgOpt, h]
+
+-- non-vacuity: a question-less query and a two-question query against a configuration that would route
+-- (`Ex.cfg2`): both refused, the cache untouched
+example : (handleMsg Ex.cfg2 Ex.cacheWithAnswer 1 false 0 none (fun _ _ => none)).reply = .refused ∧
+    (handleMsg Ex.cfg2 Ex.cacheWithAnswer 1 false 2 (some Ex.qCached) (fun _ _ => none)).reply = .refused := by decide
 
 /-! ## Question classes (fix 4150de7) -/
 
